@@ -80,7 +80,7 @@ func (m *chalMon) add(r *ev.Run, c *ev.Case, d []byte) {
 
 func main() {
 	ev.MainIsolated("C01", "exploration", 40*time.Minute, func(r *ev.Run) {
-		r.Rule("seeded runs of gensign.Run with the real regular handler (built by NewHandler from JSON configuration) over a scripted forwarded agent. Per run: agent behaviour in {honest with the key, honest without it, signs with another key, signs the challenge with one bit flipped / empty data / the previous challenge, replays the previous run's signature, garbage reply, well-formed reply of the wrong type, empty signature blob, wrong format string, truncated signature, failure, closes the connection} x user key type {RSA, ECDSA, Ed25519} x registered-key directory state {<name>.pub, bare <name>, both (same / different keys), none, unparsable, empty file, another user's key under this name, right key under another name only} x policy {NONS, NSOK, other} x hard-key flag; sequences of 2..6 runs on the same agent (replay / freshness); plus handler lists of 1..4 stub/real handlers with every accept/reject pattern. Oracle from the wire log alone: a signer call or an add-identity frame requires that this run's sign request named a registered key and was answered with a signature that the harness itself verifies over exactly the challenge sent, and policy NONS without hard key. distinct_nontrivial = distinct (behaviour, directory state, policy, hard-key, key type, outcome) combinations + distinct handler-list patterns")
+		r.Rule("seeded runs of gensign.Run with the real regular handler (built by NewHandler from JSON configuration) over a scripted forwarded agent. Per run: agent behaviour in {honest with the key, honest without it, signs with another key, signs the challenge with one bit flipped / empty data / the previous challenge, replays the previous run's signature, garbage reply, well-formed reply of the wrong type, empty signature blob, wrong format string, truncated signature, failure, closes the connection} x user key type {RSA, ECDSA P-256/384/521, Ed25519, sk-ssh-ed25519@openssh.com} x registered-key directory state {<name>.pub, bare <name>, both (same / different keys), none, unparsable, empty file, another user's key under this name, right key under another name only} x policy {NONS, NSOK, other} x hard-key flag; sequences of 2..6 runs on the same agent (replay / freshness); plus handler lists of 1..4 stub/real handlers with every accept/reject pattern. Oracle from the wire log alone: a signer call or an add-identity frame requires that this run's sign request named a registered key and was answered with a signature that the harness itself verifies over exactly the challenge sent, and policy NONS without hard key. distinct_nontrivial = distinct (behaviour, directory state, policy, hard-key, key type, outcome) combinations + distinct handler-list patterns")
 		r.Assume("x/crypto/ssh signature verification is the reference for 'valid signature'", "login names contain no path separator", "unpredictability is observed as length >= 32, distinctness over the whole run, per-bit balance within 6 sigma (and getrandom provenance under strace in the thorough tier)")
 		gen.Pool()
 		mon := &chalMon{seen: map[[32]byte]bool{}}
@@ -140,11 +140,15 @@ func sequence(r *ev.Run, c *ev.Case, seqNo int, mon *chalMon) {
 	// user keys by type
 	pool := gen.Pool()
 	var user, other *gen.Key
-	want := []string{"rsa", "ed25519", "p256", "p384", "p521"}[rng.Intn(5)]
+	want := []string{"rsa", "ed25519", "p256", "p384", "p521", "sk-ed25519"}[rng.Intn(6)]
 	for _, k := range pool {
 		if k.Name == want && user == nil {
 			user = k
 		}
+	}
+	if want == "sk-ed25519" {
+		// the registered key lives on a security key: the agent's answers carry flags and a counter
+		user = gen.SKPool()[rng.Intn(2)]
 	}
 	for {
 		other = pool[rng.Intn(len(pool))]
@@ -370,6 +374,7 @@ func sequence(r *ev.Run, c *ev.Case, seqNo int, mon *chalMon) {
 				continue
 			}
 			r.Count("runs provisioned after a verified proof of possession", 1)
+			r.Count("runs provisioned, registered key of type "+user.Pub.Type(), 1)
 		}
 		r.Nontrivial(fmt.Sprintf("%s|%s|%s|%v|%s|%s", beh, dir, ps2.Policy, ps2.HardKey, user.Name, rec.Result))
 		if seqNo < 2 && run < 3 {
